@@ -245,5 +245,7 @@ void leak_add_secret(const char *kind, const uint8_t *p, size_t n);
 void leak_scan_now(int task);
 int  leak_found(char *what, size_t n);
 void leak_collect_conn(const TLS_CONNECT *conn);
+void leak_deep_collect(const Plan *p);
+extern int g_leak_mode;
 
 #endif
